@@ -858,6 +858,233 @@ namespace
             return res;
         }
     };
+
+    // ================================================================ one object in several lists at once; long lists
+    // A job carries two dlist links and two slist links of the same node types and sits in up to four lists at once
+    // (the "all" list, the "ready" list, two singly linked registries). The population is a configuration of the run:
+    // a handful of jobs, or more than a thousand.
+    struct Job
+    {
+        int id = 0;
+        igris::dlist_node all_lnk;
+        long pad = 0;
+        igris::dlist_node ready_lnk;
+        slist_head s1;
+        char pad2[24] = {0};
+        slist_head s2;
+    };
+    enum { J_ALL_BACK, J_ALL_FRONT, J_READY_BACK, J_READY_FRONT, J_ALL_POP, J_READY_POP, J_DEATH, J_BULK, J_S1, J_S2, J_READY_NEXT_OF, J_ALL_PREV_OF, J_N };
+    const char *J_NAME[] = {"all.move_back", "all.move_front", "ready.move_back", "ready.move_front", "all.pop", "ready.pop", "job_death", "bulk_enqueue", "registry1.add_first",
+                            "registry2.add_first", "ready.move_next(obj,obj)", "all.move_prev(obj,obj)"};
+    struct MultiWorld : World
+    {
+        const char *name() const override { return "cxx-lists-shared-objects"; }
+        unsigned weight(Tier) const override { return 2; }
+        Plan generate(Rng &r, Tier tier) override
+        {
+            Plan p;
+            bool longrun = r.chance(1, tier == THOROUGH ? 10 : 16);
+            int nj = longrun ? (int)r.range(1001, 1200) : (int)r.range(1, 9);
+            p.cfg = {nj};
+            int n = longrun ? (int)r.range(3, 10) : (int)r.range(4, tier == THOROUGH ? 80 : 40);
+            if (longrun) p.ops.push_back({J_BULK, (int64_t)r.below(nj), (int64_t)nj, (int64_t)r.below(3)});
+            for (int i = 0; i < n; i++)
+            {
+                int64_t k = (int64_t)r.below(J_N);
+                if (k == J_BULK && !longrun && r.chance(1, 2)) k = J_ALL_BACK;
+                p.ops.push_back({k, (int64_t)r.below(nj), k == J_BULK ? (int64_t)r.range(1, longrun ? 1200 : 6) : (int64_t)r.below(nj), (int64_t)r.below(3)});
+            }
+            return p;
+        }
+        std::string describe(const Plan &p) override
+        {
+            std::string s = "jobs=" + std::to_string(mod(p.c(0) - 1, 1500) + 1) + ":";
+            for (auto &o : p.ops) s += std::string(" ") + J_NAME[mod(arg(o, 0), J_N)] + "(j" + std::to_string(arg(o, 1)) + "," + std::to_string(arg(o, 2)) + ")";
+            return s;
+        }
+        Result execute(const Plan &p, Trace &tr) override
+        {
+            Result res;
+            int nj = (int)mod(p.c(0) - 1, 1500) + 1;
+            typedef igris::dlist<Job, &Job::all_lnk> AllList;
+            typedef igris::dlist<Job, &Job::ready_lnk> ReadyList;
+            typedef igris::slist<Job, &Job::s1> Reg1;
+            typedef igris::slist<Job, &Job::s2> Reg2;
+            std::vector<std::unique_ptr<Job>> job(nj);
+            auto fresh = [&](int i) {
+                job[i].reset(new Job());
+                job[i]->id = i;
+                job[i]->s1.next = &job[i]->s1;
+                job[i]->s2.next = &job[i]->s2;
+            };
+            for (int i = 0; i < nj; i++) fresh(i);
+            // lists are declared after the jobs: they die first
+            AllList all;
+            ReadyList ready;
+            Reg1 reg1;
+            Reg2 reg2;
+            std::vector<int> mall, mready, m1, m2;
+            std::vector<char> in_all(nj, 0), in_ready(nj, 0), in_1(nj, 0), in_2(nj, 0);
+            size_t longest = 0;
+            int both = 0;
+            if (nj > 1000) probe("population_over_1000");
+            auto check = [&](const char *when) {
+                std::vector<int> f, b;
+                size_t guard = 0;
+                for (auto i = all.begin(); i != all.end(); ++i)
+                {
+                    if (++guard > (size_t)nj + 2) violate("C01/cxx-dlist-cycle", "%s: forward iteration of the all-list does not end", when);
+                    Job *j = &*i;
+                    if (&j->all_lnk != i.current) violate("C01/cxx-dlist-cast", "%s: all-list iterator dereference does not give the object that contains the node", when);
+                    f.push_back(j->id);
+                }
+                if (f != mall) violate("C01/cxx-dlist-forward", "%s: all-list forward differs from the reference (%zu vs %zu elements; first %s)", when, f.size(), mall.size(), seq(std::vector<int>(f.begin(), f.begin() + std::min<size_t>(f.size(), 8))).c_str());
+                guard = 0;
+                for (auto i = all.rbegin(); i != all.rend(); ++i)
+                {
+                    if (++guard > (size_t)nj + 2) violate("C01/cxx-dlist-cycle", "%s: reverse iteration of the all-list does not end", when);
+                    b.push_back((*i).id);
+                }
+                std::reverse(b.begin(), b.end());
+                if (b != mall) violate("C01/cxx-dlist-backward", "%s: all-list backward (reversed) differs from the reference", when);
+                f.clear();
+                b.clear();
+                guard = 0;
+                for (auto i = ready.begin(); i != ready.end(); ++i)
+                {
+                    if (++guard > (size_t)nj + 2) violate("C01/cxx-dlist-cycle", "%s: forward iteration of the ready-list does not end", when);
+                    Job *j = &*i;
+                    if (&j->ready_lnk != i.current) violate("C01/cxx-dlist-cast", "%s: ready-list iterator dereference does not give the object that contains the node", when);
+                    f.push_back(j->id);
+                }
+                if (f != mready) violate("C01/cxx-dlist-forward", "%s: ready-list forward differs from the reference (%zu vs %zu elements)", when, f.size(), mready.size());
+                guard = 0;
+                for (auto i = ready.rbegin(); i != ready.rend(); ++i)
+                {
+                    if (++guard > (size_t)nj + 2) violate("C01/cxx-dlist-cycle", "%s: reverse iteration of the ready-list does not end", when);
+                    b.push_back((*i).id);
+                }
+                std::reverse(b.begin(), b.end());
+                if (b != mready) violate("C01/cxx-dlist-backward", "%s: ready-list backward (reversed) differs from the reference", when);
+                if (all.size() != mall.size() || ready.size() != mready.size())
+                    violate("C01/cxx-dlist-size", "%s: size() = %zu / %zu, the reference lists hold %zu / %zu", when, all.size(), ready.size(), mall.size(), mready.size());
+                if (all.empty() != mall.empty() || ready.empty() != mready.empty()) violate("C01/cxx-dlist-empty", "%s: empty() differs from the reference", when);
+                if (!all.is_correct() || !ready.is_correct()) violate("C01/cxx-dlist-is_correct", "%s: is_correct() is false for a well-formed list of %zu / %zu elements", when, mall.size(), mready.size());
+                if (!mall.empty() && (all.front().id != mall.front() || all.first().id != mall.front() || all.back().id != mall.back()))
+                    violate("C01/cxx-dlist-front-back", "%s: all-list front/back differ from the reference", when);
+                if (!mready.empty() && (ready.front().id != mready.front() || ready.first().id != mready.front() || ready.back().id != mready.back()))
+                    violate("C01/cxx-dlist-front-back", "%s: ready-list front/back differ from the reference", when);
+                std::vector<int> x;
+                guard = 0;
+                for (auto i = reg1.begin(); i != reg1.end(); ++i)
+                {
+                    if (++guard > (size_t)nj + 2) violate("C01/slist-cycle", "%s: registry 1 iteration does not end", when);
+                    if (&(*i).s1 != i.current) violate("C01/cxx-slist-cast", "%s: registry 1 iterator dereference does not give the containing object", when);
+                    x.push_back((*i).id);
+                }
+                if (x != m1) violate("C01/cxx-slist-forward", "%s: registry 1 yields %s, reference %s", when, seq(x).c_str(), seq(m1).c_str());
+                x.clear();
+                guard = 0;
+                for (auto i = reg2.begin(); i != reg2.end(); ++i)
+                {
+                    if (++guard > (size_t)nj + 2) violate("C01/slist-cycle", "%s: registry 2 iteration does not end", when);
+                    if (&(*i).s2 != i.current) violate("C01/cxx-slist-cast", "%s: registry 2 iterator dereference does not give the containing object", when);
+                    x.push_back((*i).id);
+                }
+                if (x != m2) violate("C01/cxx-slist-forward", "%s: registry 2 yields %s, reference %s", when, seq(x).c_str(), seq(m2).c_str());
+                for (int i = 0; i < std::min(nj, 12); i++)
+                    if (job[i]->all_lnk.is_linked() != (bool)in_all[i] || job[i]->ready_lnk.is_linked() != (bool)in_ready[i])
+                        violate("C01/cxx-dlist-is_linked", "%s: job %d is_linked() = %d/%d, reference %d/%d", when, i, (int)job[i]->all_lnk.is_linked(), (int)job[i]->ready_lnk.is_linked(), (int)in_all[i], (int)in_ready[i]);
+                longest = std::max(longest, std::max(mall.size(), mready.size()));
+                if (mall.size() > 1000 || mready.size() > 1000) probe("list_longer_than_1000");
+            };
+            auto put = [&](std::vector<int> &m, std::vector<char> &in, int i, bool front) {
+                if (in[i]) erase_val(m, i);
+                if (front) m.insert(m.begin(), i);
+                else m.push_back(i);
+                in[i] = 1;
+            };
+            check("init");
+            for (auto &o : p.ops)
+            {
+                int k = (int)mod(arg(o, 0), J_N);
+                int i = (int)mod(arg(o, 1), nj), t = (int)mod(arg(o, 2), nj);
+                Job &j = *job[i];
+                switch (k)
+                {
+                case J_ALL_BACK: all.move_back(j); put(mall, in_all, i, false); break;
+                case J_ALL_FRONT: all.move_front(j); put(mall, in_all, i, true); break;
+                case J_READY_BACK: ready.move_back(j); put(mready, in_ready, i, false); break;
+                case J_READY_FRONT: ready.move_front(j); put(mready, in_ready, i, true); break;
+                case J_ALL_POP:
+                    all.pop(j);
+                    if (in_all[i]) { erase_val(mall, i); in_all[i] = 0; }
+                    break;
+                case J_READY_POP:
+                    ready.pop(j);
+                    if (in_ready[i]) { erase_val(mready, i); in_ready[i] = 0; }
+                    break;
+                case J_DEATH:
+                    if (in_1[i] || in_2[i]) break; // an slist node can only die unlinked
+                    if (in_all[i] || in_ready[i]) fault("death_of_linked_node");
+                    if (in_all[i]) { erase_val(mall, i); in_all[i] = 0; }
+                    if (in_ready[i]) { erase_val(mready, i); in_ready[i] = 0; }
+                    fresh(i);
+                    break;
+                case J_BULK:
+                {
+                    // a burst of arrivals: jobs i, i+1, ... join the all-list, and (mode) every / every second / no one the ready-list
+                    int cnt = (int)mod(arg(o, 2) - 1, 1500) + 1, mode = (int)mod(arg(o, 3), 3);
+                    cnt = std::min(cnt, nj);
+                    for (int q = 0; q < cnt; q++)
+                    {
+                        int x = (i + q) % nj;
+                        all.move_back(*job[x]);
+                        put(mall, in_all, x, false);
+                        if (mode == 0 || (mode == 1 && q % 2 == 0))
+                        {
+                            ready.move_back(*job[x]);
+                            put(mready, in_ready, x, false);
+                        }
+                    }
+                    break;
+                }
+                case J_S1:
+                    if (in_1[i]) break;
+                    reg1.add_first(j);
+                    m1.insert(m1.begin(), i);
+                    in_1[i] = 1;
+                    break;
+                case J_S2:
+                    if (in_2[i]) break;
+                    reg2.add_first(j);
+                    m2.insert(m2.begin(), i);
+                    in_2[i] = 1;
+                    break;
+                case J_READY_NEXT_OF:
+                case J_ALL_PREV_OF:
+                {
+                    std::vector<int> &m = k == J_READY_NEXT_OF ? mready : mall;
+                    std::vector<char> &in = k == J_READY_NEXT_OF ? in_ready : in_all;
+                    if (t == i || !in[t]) break;
+                    if (k == J_READY_NEXT_OF) ready.move_next(j, *job[t]);
+                    else all.move_prev(j, *job[t]);
+                    if (in[i]) erase_val(m, i);
+                    auto pos = std::find(m.begin(), m.end(), t);
+                    m.insert(k == J_READY_NEXT_OF ? pos + 1 : pos, i);
+                    in[i] = 1;
+                    break;
+                }
+                }
+                if (in_all[i] && in_ready[i]) { both++; probe("object_in_two_dlists"); }
+                if (in_1[i] && in_2[i]) probe("object_in_two_slists");
+                tr.ev("%s j%d %d -> %zu/%zu", J_NAME[k], i, t, mall.size(), mready.size());
+                check(J_NAME[k]);
+            }
+            res.nontrivial = both >= 1 && longest >= 2;
+            return res;
+        }
+    };
 }
 
 int main(int argc, char **argv)
@@ -865,9 +1092,10 @@ int main(int argc, char **argv)
     CDlistWorld cw;
     XDlistWorld xw;
     SHWorld sw;
+    MultiWorld mw;
     Harness h;
     h.property = "C01";
-    h.worlds = {&cw, &xw, &sw};
+    h.worlds = {&cw, &xw, &sw, &mw};
     h.real = {"igris/datastruct/dlist.h", "igris/container/dlist.h + dlist.cpp", "igris/datastruct/slist.h", "igris/container/slist.h", "igris/datastruct/hlist.h",
               "igris/util/member.h", "igris/util/memberxx.h"};
     h.stub = {"client tasks (op-level interleaving from the plan) including node and list death", "reference lists (std::vector of item ids)"};
